@@ -8,6 +8,9 @@ marks designate identities); where the text is silent it follows the conventions
 design.d/C06.md.  After EVERY generated command the harness inserts probes (`=`, `'a=` `'b=` `'c=`,
 `%p` bracketed by `1kz`/`kz` ... `'z` so that the current line survives the print) and `ec` markers,
 so buffer, printed output, current line and marks are observed after each step; final `w`.
+Register-history stream (gen_reg_case): histories of line-wise stores (y d rs) interleaved with `pu N` / `@N`
+from the numbered registers; there the registers 1..9 are revealed after every command as well (probe `R`:
+`$pu N|$a` + sentinel line, `%p`, `u`) and compared between binary, model and reference.
 """
 import json, os, re, copy, glob as _glob
 import vlib
